@@ -46,6 +46,12 @@ Proof.
   destruct Hs as (_&_&[Hx|Hx]); [congruence | exact Hx].
 Qed.
 
+Lemma last_in {A} (l : list A) (d : A) : l <> [] -> In (last l d) l.
+Proof.
+  induction l as [|a l IH]; [congruence|]. intros _. destruct l as [|b l]; [left; reflexivity|].
+  right. apply IH. discriminate.
+Qed.
+
 Section bifurcate.
 Variables (now drift : Z) (tv : hdr -> hdr -> tvres) (get : nat -> N -> option hdr).
 
@@ -328,6 +334,43 @@ Proof.
   apply (bif_terminates_bound new (h_height subj) Hn Hh); lia.
 Qed.
 
+(** with a getter that answers with the asked heights, every intermediate the search promotes
+    lies strictly below the candidate: a refused candidate never becomes the subjective head *)
+Lemma bif_promoted_below new fuel : forall i subj diff,
+  h_height new < two64 ->
+  (forall i h x, h_height subj <= h <= h_height new -> get i h = Some x -> h_height x = h) ->
+  h_height subj < h_height new -> diff <= h_height new - h_height subj ->
+  Forall (fun c => h_height c < h_height new) (b_promoted (bif fuel i subj new diff)).
+Proof.
+  induction fuel as [|f IH]; intros i subj diff Hn Hh Hsn Hd; [constructor|].
+  cbn [bifurcate].
+  assert (Hle : diff / 2 <= diff) by (apply N.div_le_upper_bound; lia).
+  assert (H2 : 2 * (diff / 2) <= diff) by (apply N.mul_div_le; lia).
+  rewrite wrap64_small by lia. set (ch := h_height subj + diff / 2).
+  destruct (get i ch) as [c|] eqn:Hg; [|constructor].
+  assert (Hc : h_height c = ch) by (apply (Hh i); [unfold ch; lia | exact Hg]).
+  assert (Hcn : h_height c < h_height new) by (unfold ch in Hc; lia).
+  destruct (V subj c) as [e|] eqn:Hv.
+  - destruct (ve_soft e); [|constructor]. cbn. apply IH; auto. lia.
+  - pose proof (verify_none_height _ _ _ _ _ Hv) as Hlt.
+    destruct (V c new); [|constructor; [exact Hcn | constructor]].
+    destruct (_ <=? 1); [constructor; [exact Hcn | constructor]|].
+    cbn. constructor; [exact Hcn|]. apply IH; auto.
+    + intros j h x Hr. apply Hh. lia.
+    + rewrite sub64_le by lia. lia.
+Qed.
+
+Theorem sverify_promoted_below new fuel subj :
+  h_height new < two64 ->
+  (forall i h x, h_height subj <= h <= h_height new -> get i h = Some x -> h_height x = h) ->
+  Forall (fun c => h_height c < h_height new) (b_promoted (sverify fuel subj new)).
+Proof.
+  intros Hn Hh. unfold syncer_verify. destruct (V subj new) as [e|] eqn:Hv; [|constructor].
+  destruct (ve_soft e) eqn:Hs; [|constructor].
+  pose proof (verify_soft_height _ _ _ _ _ _ Hv Hs) as Hlt.
+  apply bif_promoted_below; auto. rewrite sub64_le by lia. lia.
+Qed.
+
 (** incomingNetworkHead = Syncer.verify + setLocalHead(candidate) on success *)
 Lemma incoming_unfold new fuel subj :
   let r0 := sverify fuel subj new in
@@ -372,6 +415,67 @@ Proof.
   - rewrite Hv. intros Hna. unfold head_after. rewrite Hp.
     destruct (b_verdict (sverify fuel subj new)) eqn:E; [congruence | | congruence].
     rewrite app_nil_r. split; [exact Hs|]. intros H. apply Hiff in H. discriminate.
+Qed.
+
+(** the head-request path (networkHead's soft branch): same run as incomingNetworkHead; the
+    candidate is the answer iff it was accepted, otherwise the old subjective head is kept;
+    and (getter answering with the asked heights) a refused candidate is neither the answer
+    nor among the promoted headers, i.e. never Syncer.Head() *)
+Theorem head_soft_spec new fuel subj :
+  let '(r, ans) := head_soft now drift tv get fuel subj new in
+  r = incom fuel subj new /\
+  (b_verdict r = Accept -> ans = new /\ head_after subj r = new) /\
+  (b_verdict r <> Accept -> ans = subj).
+Proof.
+  unfold head_soft. destruct (incoming_unfold new fuel subj) as (Hv & _ & Hp).
+  destruct (sverify_spec new fuel subj) as (Hc & _ & Hiff).
+  destruct (b_verdict (incom fuel subj new)) eqn:E.
+  - assert (Ha : b_verdict (sverify fuel subj new) = Accept) by congruence.
+    assert (Hlt : h_height subj < h_height new).
+    { assert (Hl : V (last (b_promoted (sverify fuel subj new)) subj) new = None) by (apply Hiff; congruence).
+      apply verify_none_height in Hl.
+      assert (Hmono : forall l t, chain_verified now drift tv t l -> h_height t <= h_height (last l t)).
+      { induction l as [|a l IHl]; intros t Hcv; [cbn; lia|]. destruct Hcv as [Hva Hcv].
+        rewrite last_cons_default. apply verify_none_height in Hva. specialize (IHl a Hcv). lia. }
+      specialize (Hmono _ _ Hc). lia. }
+    destruct (N.leb_spec (h_height new) (h_height subj)); [lia|].
+    split; [reflexivity|]. split; [|congruence]. intros _. split; [reflexivity|].
+    unfold head_after. rewrite Hp, Ha. apply last_last.
+  - split; [reflexivity|]. split; [congruence | reflexivity].
+  - split; [reflexivity|]. split; [congruence | reflexivity].
+Qed.
+
+Theorem head_soft_refused_never_head new fuel subj :
+  h_height new < two64 ->
+  (forall i h x, h_height subj <= h <= h_height new -> get i h = Some x -> h_height x = h) ->
+  subj <> new ->
+  let '(r, ans) := head_soft now drift tv get fuel subj new in
+  b_verdict r <> Accept ->
+  ans <> new /\ ~ In new (b_promoted r) /\ head_after subj r <> new.
+Proof.
+  intros Hn Hh Hne. pose proof (head_soft_spec new fuel subj) as Hs.
+  destruct (head_soft now drift tv get fuel subj new) as [r ans]. destruct Hs as (-> & _ & Hr).
+  intros Hna. rewrite (Hr Hna).
+  destruct (incoming_unfold new fuel subj) as (Hv & _ & Hp).
+  pose proof (sverify_promoted_below new fuel subj Hn Hh) as Hb.
+  assert (Hp' : b_promoted (incom fuel subj new) = b_promoted (sverify fuel subj new)).
+  { rewrite Hp. destruct (b_verdict (sverify fuel subj new)) eqn:E; [congruence | apply app_nil_r | apply app_nil_r]. }
+  rewrite <- Hp' in Hb. rewrite Forall_forall in Hb.
+  assert (Hnin : ~ In new (b_promoted (incom fuel subj new))).
+  { intros Hin. specialize (Hb new Hin). lia. }
+  split; [exact Hne|]. split; [exact Hnin|].
+  unfold head_after. intros Hl.
+  destruct (b_promoted (incom fuel subj new)) as [|a l] eqn:Hpl; [cbn in Hl; auto|].
+  apply Hnin. rewrite <- Hl. apply last_in. discriminate.
+Qed.
+
+(** the store head after a list of promotions is the old one or one of the promoted headers *)
+Lemma store_after_in st l : store_after st l = st \/ In (store_after st l) l.
+Proof.
+  unfold store_after. revert st. induction l as [|a l IH]; intros st; [left; reflexivity|].
+  cbn [fold_left]. destruct (IH (store_step st a)) as [H|H].
+  - rewrite H. unfold store_step. destruct (_ =? _); [right; left; reflexivity | left; reflexivity].
+  - right. right. exact H.
 Qed.
 
 End bifurcate.
